@@ -31,6 +31,7 @@ func runC01(c *Ctx) {
 	c.ruleR01e("R01e result-built-from-current-path")
 	c.ruleR01f("R01f documented-length-rules")
 	c.ruleR01g("R01g optional-keeps-the-empty-match")
+	c.ruleR16b("R01h sep-by-alternation-and-length") // SepBy/SepBy1 'following their documented rules'
 }
 
 func isUnionCall(call *ssa.Call) bool {
